@@ -170,6 +170,14 @@ class Impl:
     def op_pt_sub(self, n, a, b): self.o[n] = self.o[a] - self.o[b]; return "ok"
     def op_pt_smul(self, n, c, a): self.o[n] = self.R(c) * self.o[a]; return "ok"
     def op_pt_div(self, n, a, c): self.o[n] = self.o[a] / self.R(c); return "ok"
+    def op_pt_add(self, n, a, b): self.o[n] = self.o[a] + self.o[b]; return "ok"
+    def op_pt_neg(self, n, a): self.o[n] = -self.o[a]; return "ok"
+    def op_ex_add(self, n, a, b): self.o[n] = self.o[a] + self.o[b]; return "ok"
+    def op_ex_neg(self, n, a): self.o[n] = -self.o[a]; return "ok"
+    def op_ex_smul(self, n, c, a): self.o[n] = (self.R(c) * self.o[a]) if len(n) % 2 else (self.o[a] * self.R(c)); return "ok"
+    def op_ex_sq(self, n, a): self.o[n] = self.o[a] ** 2; return "ok"
+    def op_ex_subc(self, n, a, c): self.o[n] = self.o[a] - self.R(c); return "ok"
+    def op_ex_rsubc(self, n, c, a): self.o[n] = self.R(c) - self.o[a]; return "ok"
     def op_ex_leaf(self, n): self.o[n] = Expression(); return "ok"
     def op_ex_ip(self, n, a, b): self.o[n] = self.o[a] * self.o[b]; return "ok"
     def op_ex_lin(self, n, c1, a, c2, b): self.o[n] = self.R(c1) * self.o[a] + self.R(c2) * self.o[b]; return "ok"
@@ -200,7 +208,9 @@ class Impl:
     def op_class_set(self, f): self.o[f].set_class_constraints(); return "ok"
     def op_solve_collect(self):
         self.wrapper = TeeWrapper() if os.environ.get("PEPV_TEE") else ScriptedWrapper()
-        self.pep._solve_with_wrapper(self.wrapper, verbose=0)
+        import io, contextlib
+        with contextlib.redirect_stdout(io.StringIO()):
+            self.pep._solve_with_wrapper(self.wrapper, verbose=int(os.environ.get("PEPV_VERBOSE", "0")))
         return "ok"
     def op_dump_task(self):
         if self.wrapper.mw_error: return "MOSEK-ERROR " + self.wrapper.mw_error.split(":")[0].replace("AssertionError", "IndexError")
@@ -482,6 +492,49 @@ def gen_oracle(seed):
     for f in p.F: p.emit("dump.fn %s" % f); p.emit("check.afn %s" % f)
     return p.lines
 
+TW = ["1", "2", "-1", "1/2", "0", "-3/2", "4", "1/4", "3", "-2"]
+TD = ["2", "-1", "1/2", "4", "1/4", "-2", "0"]
+def gen_tree(seed):
+    """random operator trees over points and expressions (C06): every object is dumped when it is
+    created and again at the end (operands must not have changed)"""
+    rnd = random.Random(seed); p = Prog(rnd)
+    for _ in range(rnd.randint(2, 4)):
+        n = p.newp(); p.emit("pt.leaf %s" % n)
+    for _ in range(rnd.randint(1, 2)):
+        n = p.newe(); p.emit("ex.leaf %s" % n)
+    for _ in range(rnd.randint(4, 22)):
+        r = rnd.random()
+        if r < .10: a, b = rnd.choice(p.P), rnd.choice(p.P); n = p.newp(); p.emit("pt.add %s %s %s" % (n, a, b)); p.emit("dump.pt %s" % n)
+        elif r < .20: a, b = rnd.choice(p.P), rnd.choice(p.P); n = p.newp(); p.emit("pt.sub %s %s %s" % (n, a, b)); p.emit("dump.pt %s" % n)
+        elif r < .28: a = rnd.choice(p.P); n = p.newp(); p.emit("pt.smul %s %s %s" % (n, rnd.choice(TW), a)); p.emit("dump.pt %s" % n)
+        elif r < .33:
+            a = rnd.choice(p.P); d = rnd.choice(TD); n = p.newp(); p.emit("pt.div %s %s %s" % (n, a, d))
+            if d == "0": p.P.pop()          # raises ZeroDivisionError on both sides: the name is never bound
+            else: p.emit("dump.pt %s" % n)
+        elif r < .37: a = rnd.choice(p.P); n = p.newp(); p.emit("pt.neg %s %s" % (n, a)); p.emit("dump.pt %s" % n)
+        elif r < .42: a, b = rnd.choice(p.P), rnd.choice(p.P); n = p.newp(); p.emit("pt.lin %s %s %s %s %s" % (n, rnd.choice(TW), a, rnd.choice(TW), b)); p.emit("dump.pt %s" % n)
+        elif r < .54: a, b = rnd.choice(p.P), rnd.choice(p.P); n = p.newe(); p.emit("ex.ip %s %s %s" % (n, a, b)); p.emit("dump.ex %s" % n)
+        elif r < .59: a = rnd.choice(p.P); n = p.newe(); p.emit("ex.sq %s %s" % (n, a)); p.emit("dump.ex %s" % n)
+        elif r < .66: a, b = rnd.choice(p.E), rnd.choice(p.E); n = p.newe(); p.emit("%s %s %s %s" % (rnd.choice(["ex.add", "ex.sub"]), n, a, b)); p.emit("dump.ex %s" % n)
+        elif r < .71: a = rnd.choice(p.E); n = p.newe(); p.emit("ex.addc %s %s %s" % (n, a, rnd.choice(TW))); p.emit("dump.ex %s" % n)
+        elif r < .75: a = rnd.choice(p.E); n = p.newe(); p.emit("ex.subc %s %s %s" % (n, a, rnd.choice(TW))); p.emit("dump.ex %s" % n)
+        elif r < .79: a = rnd.choice(p.E); n = p.newe(); p.emit("ex.rsubc %s %s %s" % (n, rnd.choice(TW), a)); p.emit("dump.ex %s" % n)
+        elif r < .84: a = rnd.choice(p.E); n = p.newe(); p.emit("ex.smul %s %s %s" % (n, rnd.choice(TW), a)); p.emit("dump.ex %s" % n)
+        elif r < .87: a = rnd.choice(p.E); n = p.newe(); p.emit("ex.neg %s %s" % (n, a)); p.emit("dump.ex %s" % n)
+        elif r < .90:
+            a = rnd.choice(p.E); d = rnd.choice(TD); n = p.newe(); p.emit("ex.div %s %s %s" % (n, a, d))
+            if d == "0": p.E.pop()
+            else: p.emit("dump.ex %s" % n)
+        elif r < .95:
+            a, b = rnd.choice(p.E), rnd.choice(p.E); c = p.newc(); p.emit("%s %s %s %s" % (rnd.choice(["cons.le", "cons.ge", "cons.eq"]), c, a, b)); p.emit("dump.cons %s" % c)
+        else:
+            a = rnd.choice(p.E); c = p.newc(); p.emit("%s %s %s %s" % (rnd.choice(["cons.lec", "cons.gec", "cons.eqc"]), c, a, rnd.choice(TW))); p.emit("dump.cons %s" % c)
+    for x in p.P: p.emit("dump.pt %s" % x)
+    for x in p.E: p.emit("dump.ex %s" % x)
+    p.emit("dump.counters")
+    return p.lines
+
+
 def norm(t):
     if t.startswith("ok ") and re.fullmatch(r"ok -?\d+(/\d+)?", t):
         v = float(Fr(t[3:]))
@@ -489,11 +542,12 @@ def norm(t):
     return re.sub(r":(-?\d+(?:/\d+)?)(?=[,}])", lambda m: ":%.9g" % float(Fr(m.group(1))), t)
 
 
-def run_stream(gen, n, seed0=0):
+def run_programs(progs):
+    """progs: list of (seed, lines). Runs all of them in this process (one after the other, as one
+    interpreter history) on the implementation and through the Lean driver; returns a report."""
     impl = Impl()
     all_lines, exp, idx = [], [], []
-    for seed in range(seed0, seed0 + n):
-        lines = gen(seed)
+    for seed, lines in progs:
         for l in lines:
             impl.last_line = None
             try:
@@ -501,16 +555,50 @@ def run_stream(gen, n, seed0=0):
             except Exception as ex:
                 out = "EXC %s: %s" % (type(ex).__name__, str(ex)[:100])
             all_lines.append(impl.last_line or l); exp.append(out); idx.append(seed)
-    out = subprocess.run([DRIVER], input="\n".join(all_lines) + "\n", capture_output=True, text=True).stdout.splitlines()
-    bad = [i for i in range(min(len(out), len(exp))) if norm(out[i]) != norm(exp[i])]
-    exact = sum(1 for i in range(min(len(out), len(exp))) if out[i] == exp[i])
+    r = subprocess.run([DRIVER], input="\n".join(all_lines) + "\n", capture_output=True, text=True)
+    out = r.stdout.splitlines()
+    n = min(len(out), len(exp))
+    bad = [i for i in range(n) if norm(out[i]) != norm(exp[i])]
+    if len(out) != len(exp):
+        bad.append(n - 1 if n else 0)
+    exact = sum(1 for i in range(n) if out[i] == exp[i])
     return all_lines, exp, out, idx, bad, exact
 
 
+def run_stream(gen, n, seed0=0):
+    return run_programs([(seed, gen(seed)) for seed in range(seed0, seed0 + n)])
+
+
+GENS = dict(tree=gen_tree, cls=gen_class, collect=gen_collect, steps=gen_steps, resolve=gen_resolve, oracle=gen_oracle)
+
+
+def report(which, n, seed0):
+    """JSON-able report of one chunk of a stream"""
+    import hashlib, collections
+    gen = GENS[which]
+    progs = [(seed, gen(seed)) for seed in range(seed0, seed0 + n)]
+    lines, exp, out, idx, bad, exact = run_programs(progs)
+    hashes = sorted({hashlib.sha1("\n".join(p).encode()).hexdigest()[:16] for _, p in progs if len(p) > 4})
+    ops = collections.Counter(l.split()[0] for _, p in progs for l in p)
+    errs = collections.Counter(e for e in exp if e.startswith("err") or e.startswith("EXC"))
+    badprogs = []
+    seen = set()
+    for i in bad:
+        if idx[i] in seen: continue
+        seen.add(idx[i])
+        prog = [p for s, p in progs if s == idx[i]][0]
+        badprogs.append(dict(seed=idx[i], line=lines[i], impl=exp[i][:2000], model=(out[i] if i < len(out) else "<missing>")[:2000], program=prog))
+    return dict(stream=which, programs=n, seed0=seed0, lines=len(lines), bit_exact=exact, mismatching_lines=len(bad),
+                bad=badprogs[:20], n_bad_programs=len(seen), hashes=hashes, ops=dict(ops), errors=dict(errs),
+                sample=progs[0][1] if progs else [])
+
+
 if __name__ == "__main__":
+    if sys.argv[1] == "json":
+        print("@@JSON@@" + json.dumps(report(sys.argv[2], int(sys.argv[3]), int(sys.argv[4]))))
+        sys.exit(0)
     which = sys.argv[1]; n = int(sys.argv[2])
-    gen = dict(cls=gen_class, collect=gen_collect, steps=gen_steps, resolve=gen_resolve, oracle=gen_oracle)[which]
-    lines, exp, out, idx, bad, exact = run_stream(gen, n)
+    lines, exp, out, idx, bad, exact = run_stream(GENS[which], n, int(sys.argv[3]) if len(sys.argv) > 3 else 0)
     print("stream", which, "programs", n, "lines", len(lines), "model lines", len(out), "bit-exact", exact, "mismatching lines", len(bad), "programs", len(set(idx[i] for i in bad)))
     seen = set()
     for i in bad:
@@ -518,4 +606,4 @@ if __name__ == "__main__":
         seen.add(idx[i])
         if len(seen) > 6: break
         print("--- seed", idx[i], "line:", lines[i])
-        print("    impl :", exp[i][:600]); print("    model:", out[i][:600])
+        print("    impl :", exp[i][:600]); print("    model:", (out[i] if i < len(out) else "<missing>")[:600])
